@@ -68,7 +68,7 @@ def main():
                     r = {"raised": repr(e)}
                 if r != ref[idx]:
                     out["mismatches"].append({"after": k, "index": idx, "first": ref[idx], "now": r, "model": "same"})
-            if out["mismatches"]:
+            if out["mismatches"] and spec.get("stop_at_first_mismatch", True):
                 break
     if not out["mismatches"]:
         other = mk_model(cfg)
@@ -79,6 +79,15 @@ def main():
                 r = {"raised": repr(e)}
             if r != ref[idx]:
                 out["mismatches"].append({"after": out["fillers"], "index": idx, "first": ref[idx], "now": r, "model": "new instance, same process"})
+    # what the recurring calls return at the very end, on the long-lived model (judged by the property-specific service clauses)
+    last = []
+    for j in rec:
+        try:
+            last.append(run_job(model, j))
+        except Exception as e:  # noqa: BLE001
+            last.append({"raised": repr(e)})
+    out["first"] = ref
+    out["last"] = last
     json.dump(out, sys.stdout)
 
 
